@@ -110,6 +110,50 @@ theorem node_join_key_fields {l r0 b : Bag} {on : List String} {how : String} {c
       · cases h
     · cases h
 
+/-- **Node level: in an inner or left join the fields of the left side alone are handed on untouched.**  When the left side can never be missing
+(`how` is neither `right` nor `outer`), every output of the left container that is neither `ids`, nor its key, nor a field of the right side is an
+output of the joined container itself - the very node, no guard in between. -/
+theorem node_join_left_fields_pass {l r0 b : Bag} {on : List String} {how : String} {cached : Bool} (h : joinBag l r0 on how cached = .ok b)
+    (hg : (how == "right" || how == "outer") = false) :
+    ∃ lk, l.inputs = [lk] ∧ ∀ o ∈ l.outputs, o.name ≠ "ids" → o.name ≠ lk.name →
+      (∀ c ∈ (r0.shift l.next).outputs, c.name ≠ o.name) → o ∈ b.outputs := by
+  unfold joinBag at h
+  simp only [] at h
+  split at h
+  · cases h
+  · split at h
+    · rename_i lk rk hl hr
+      refine ⟨lk, hl, ?_⟩
+      split at h
+      · split at h
+        · cases h
+        · split at h
+          · cases h
+          · split at h
+            · cases h
+            · split at h
+              · cases h
+              · have hout := mkBag_outputs h
+                intro o ho h1 h2 hno
+                refine hout o ?_
+                simp only [hg, Bool.false_eq_true, if_false, List.mem_append]
+                refine Or.inl (Or.inr ?_)
+                refine List.mem_filter.2 ⟨List.mem_filter.2 ⟨ho, by simp [h1, h2]⟩, ?_⟩
+                have : o.name ∉ names ((r0.shift l.next).outputs.filter fun o => o.name != "ids" && o.name != rk.name) := by
+                  intro hm
+                  obtain ⟨c, hc, hcn⟩ := List.mem_map.1 hm
+                  exact hno c (List.mem_filter.1 hc).1 hcn
+                have hni : o.name ∉ (names (l.outputs.filter fun o => o.name != "ids" && o.name != lk.name)).filter
+                    (names ((r0.shift l.next).outputs.filter fun o => o.name != "ids" && o.name != rk.name)).contains := by
+                  intro hm
+                  exact this (List.contains_iff_mem.1 (List.mem_filter.1 hm).2)
+                rw [Bool.not_eq_true', ← Bool.not_eq_true]
+                intro hc
+                exact hni (List.contains_iff_mem.1 hc)
+      · cases h
+    · cases h
+
+
 /-- two datasets as containers: input `id`, outputs `id`, `ids`, the key field `k` and one own field -/
 def exSide (own : String) : Bag :=
   { inputs := [⟨0, "id"⟩], outputs := [⟨0, "id"⟩, ⟨1, "ids"⟩, ⟨2, "k"⟩, ⟨3, own⟩],
